@@ -380,6 +380,9 @@ fn shift_ids(fsm: &mut Fsm, off: u32) {
 }
 
 fn roundtrip_model(rep: &mut Report, name: &str, xml: &str, fsm: &Fsm, variant: &str) -> Option<Box<Fsm>> {
+    if crate::report::should_stop() {
+        return None;
+    }
     rep.evaluations += 1;
     let want = dump(fsm, &CanonOpts { for_roundtrip: true });
     crate::report::progress(
@@ -415,6 +418,9 @@ fn roundtrip_model(rep: &mut Report, name: &str, xml: &str, fsm: &Fsm, variant: 
             // `Read::read` may return fewer bytes than asked for wherever the range crosses the buffer end
             let caps: &[usize] = if variant == "plain" { &[5, 61, 509] } else { &[127] };
             for cap in caps {
+                if crate::report::should_stop() {
+                    break;
+                }
                 rep.evaluations += 1;
                 crate::report::progress(
                     "process-death:reading-a-valid-image-through-a-buffered-stream",
@@ -503,6 +509,10 @@ pub fn run(args: &Args, rep: &mut Report) {
     }
     let mut behaviour_budget = args.scale(35, 700);
     for (name, xml, doc) in &texts {
+        if crate::report::should_stop() {
+            // a reader ran away (verdict recorded): the abandoned helper thread keeps a core busy, end the shard
+            break;
+        }
         let fsm = match parse_xml(xml) {
             Ok(f) => f,
             Err(e) => {
